@@ -74,6 +74,42 @@ CLAIMED["C04"] = dict(
          "as identity; find_labels_of order canonicalised. Axioms: propext, Classical.choice, Quot.sound.",
     design="6/C04 + Appendix A")
 
+KKC_NOTE = ("Tries abstracted as key sets (C04); dictionary well-formedness (word stored under its own reading) assumed; "
+            "Score i32 modelled as Option Nat (sums < 2^31); std BinaryHeap replicated (tie order), validated by exact "
+            "list equality in the correspondence run. Axioms: propext, Classical.choice, Quot.sound.")
+CLAIMED["C01"] = dict(
+    engine="lean+corr_kkc",
+    technique="Lean 4 model of lattice construction + Viterbi + A* (BinaryHeap replica) over regenerated score tables; theorems on "
+              "the model + differential run against kkc through the chokan_verif hooks with the tiling oracle on every candidate",
+    text="The model reproduces the implementation's lattices, forward scores, edge scores and ordered candidate lists exactly on "
+         "random dictionaries/inputs in 4 contexts; the tiling oracle is evaluated on every implementation candidate.",
+    note="PARTIAL so far: C01_statement is stated; proved: C01_text, C01_lookup_reading (readings equal the looked-up span). "
+         "The lattice-invariant proof is in progress. " + KKC_NOTE, design="6/C01")
+CLAIMED["C02"] = dict(
+    engine="lean+corr_kkc",
+    technique="Lean 4 proof of the Viterbi step (bestScore = max over connectable predecessors) on the model + exhaustive path "
+              "enumeration oracle on the implementation's own lattice and scores + exact list equality model vs implementation",
+    text="C02_forward_step_{ge,attained,none} are kernel-checked; the five conjuncts of the n-best property are checked against "
+         "exhaustive enumeration of every connectable path of the implementation's lattice for every generated case.",
+    note="PARTIAL so far: optimality of the A* loop (C02_statement) is not yet proved; it is decided per case by exhaustive "
+         "enumeration (lattices above 20000 paths are skipped and counted). " + KKC_NOTE, design="6/C02 + Appendix B")
+CLAIMED["C03"] = dict(
+    engine="lean+corr_kkc+corr_trie",
+    technique="Lean 4 lemmas on dictionary look-up soundness in the lattice model + differential run with real tries + oracle: "
+              "every word part is a dictionary entry over its span, every matching head word / word after a prefix is offered",
+    text="Look-up soundness is proved on the model; soundness and completeness are checked on the implementation's untruncated "
+         "candidate lists for dictionaries whose tries are built by the real trie::Trie.",
+    note="PARTIAL so far: candidate-level completeness is checked by the oracle, not proved. " + KKC_NOTE, design="6/C03")
+CLAIMED["C16"] = dict(
+    engine="lean+corr_kkc",
+    technique="Lean 4 proofs over the regenerated score/merge tables: proper and normal contexts build the same lattice and the "
+              "same edge scores, node scores differ by the fixed positive bonus per proper noun, no particle/auxiliary is "
+              "mergeable at the head in any context + pairwise differential comparison of the four contexts",
+    text="C16_proper_lattice, C16_proper_edge, C16_proper_node, C16_bonus_positive, C16_no_ancillary_particle_head are "
+         "kernel-checked for all inputs and dictionaries; foreign/numeral superset claims are checked pairwise on the implementation.",
+    note="The 'only suffix/counter-headed additions' clause is false at full strength (known finding D11, contrived dictionary); it "
+         "is checked by the oracle with that mechanism recorded in known_findings.json. " + KKC_NOTE, design="6/C16")
+
 NOT_YET = "machinery for this property is not built yet in this round (work in progress; see DESIGN.md section 9)"
 
 
